@@ -601,13 +601,19 @@ func c01Exact(c *Ctx, tier string, seed uint64) {
 			esc = append(esc, k)
 		}
 	}
-	sort.Strings(esc)
-	for i, k := range esc {
-		if i >= 4 {
-			break
-		}
+	// at most four escalated bounds: the three smallest and the largest (a change that reroutes a
+	// whole class of bounds makes the filter disagree for many harmless ones)
+	var escN []uint32
+	for _, k := range esc {
 		n, _ := strconv.ParseUint(k[9:], 10, 32)
-		jobs = append(jobs, job{uint32(n), "escalated: the model filter disagreed with the code for this bound"})
+		escN = append(escN, uint32(n))
+	}
+	sort.Slice(escN, func(i, j int) bool { return escN[i] < escN[j] })
+	if len(escN) > 4 {
+		escN = append(escN[:3:3], escN[len(escN)-1])
+	}
+	for _, n := range escN {
+		jobs = append(jobs, job{n, "escalated: the model filter disagreed with the code for this bound"})
 	}
 	if tier == "quick" {
 		// one seed-chosen bound, kept light (n <= 2^24)
